@@ -39,3 +39,31 @@ fn c09_oracle_noise_restricted_rice() {
     }
     assert!(worst.is_none(), "frame larger than verbatim: {worst:?}");
 }
+
+/// C04: STREAMINFO block-size / frame-size bounds for inputs that are not a multiple of the
+/// block size (RFC 9639 section 8.2), through the public API with the real frame encoder.
+#[test]
+fn c04_oracle_short_final_block() {
+    use crate::source::MemSource;
+    let mut bad = Vec::new();
+    for (len, bs) in [(33usize, 32usize), (65, 32), (40, 33), (20, 32), (4097, 4096)] {
+        let mut cfg = config::Encoder::default();
+        cfg.multithread = false;
+        let cfg = cfg.into_verified().unwrap();
+        let samples: Vec<i32> = (0..len).map(|i| (i as i32 % 7) - 3).collect();
+        let stream = encode_with_fixed_block_size(&cfg, MemSource::from_samples(&samples, 1, 16, 44100), bs).unwrap();
+        let info = stream.stream_info();
+        let n = stream.frame_count();
+        let sizes: Vec<usize> = (0..n).map(|k| stream.frame(k).unwrap().count_bits() / 8).collect();
+        let ok = info.max_block_size() == bs
+            && info.min_block_size() >= 16
+            && (0..n.saturating_sub(1)).all(|k| info.min_block_size() <= stream.frame(k).unwrap().block_size())
+            && info.min_frame_size() == *sizes.iter().min().unwrap()
+            && info.max_frame_size() == *sizes.iter().max().unwrap()
+            && info.total_samples() == len;
+        if !ok {
+            bad.push((len, bs, info.min_block_size(), info.max_block_size(), info.min_frame_size(), info.max_frame_size()));
+        }
+    }
+    assert!(bad.is_empty(), "STREAMINFO bounds violated (len, block, min_bs, max_bs, min_fs, max_fs): {bad:?}");
+}
